@@ -133,5 +133,112 @@ func runC11(em *vEmitter, r *vRng) {
 		vStats["ops"] += len(ops)
 		ms.cleanup()
 	}
+	// directed histories: a login queues a hash upgrade behind a backlog of other users' updates; before
+	// it is served, acknowledged changes to the same user arrive (update, remove, remove + add, set-admin)
+	nd := 40
+	if vThorough() {
+		nd = 1500
+	}
+	for di := 0; di < nd; di++ {
+		ms := mNewStore("c11d", r, 2)
+		nf := 8
+		all := []string{"victim"}
+		var init []string
+		ms.plant("root", true, 2, 1600000000, r.bytes(32), []byte("rootpw"), "")
+		init = append(init, fmt.Sprintf("(%s, (%s, %s))", cS("root"), cS("rootpw"), cB(true)))
+		vadm := r.intn(2) == 0
+		ms.plant("victim", vadm, []uint{1, 3}[r.intn(2)], 1600000000, r.bytes(16), []byte("old"), "")
+		init = append(init, fmt.Sprintf("(%s, (%s, %s))", cS("victim"), cS("old"), cB(vadm)))
+		for i := 0; i < nf; i++ {
+			u := fmt.Sprintf("f%d", i)
+			all = append(all, u)
+			ms.plant(u, false, 2, 1600000000, r.bytes(32), []byte("fpw"), "")
+			init = append(init, fmt.Sprintf("(%s, (%s, %s))", cS(u), cS("fpw"), cB(false)))
+		}
+		st, err := NewStore(ms.cfgfile, "local", "", "", "")
+		if err != nil {
+			panic(err)
+		}
+		api := st.GetInterface()
+		var mu sync.Mutex
+		var ops []c11Op
+		t0 := time.Now()
+		rec := func(o c11Op, f func(o *c11Op)) {
+			o.call = int64(time.Since(t0))
+			f(&o)
+			o.ret = int64(time.Since(t0))
+			mu.Lock()
+			ops = append(ops, o)
+			mu.Unlock()
+		}
+		upd := func(c int, u, pw string) {
+			rec(c11Op{client: c, kind: "update", user: u, pw: pw}, func(o *c11Op) { o.ok = api.Update(u, pw) == nil })
+		}
+		var wg sync.WaitGroup
+		rounds := 1 + r.intn(3)
+		for i := 0; i < nf; i++ {
+			wg.Add(1)
+			go func(i int) {
+				defer wg.Done()
+				for k := 0; k < rounds; k++ {
+					upd(10+i, fmt.Sprintf("f%d", i), "fpw")
+				}
+			}(i)
+		}
+		variant := di % 5
+		wg.Add(1)
+		go func() {
+			defer wg.Done()
+			rec(c11Op{client: 1, kind: "auth", user: "victim", pw: "old"}, func(o *c11Op) {
+				ok, adm, _, _ := api.Authenticate("victim", "old")
+				o.ok, o.resAdmin = ok, ok && adm
+			})
+			switch variant {
+			case 0:
+				upd(1, "victim", "new")
+			case 1:
+				rec(c11Op{client: 1, kind: "remove", user: "victim"}, func(o *c11Op) { o.ok = api.Remove("victim") == nil })
+				rec(c11Op{client: 1, kind: "add", user: "victim", pw: "new", admin: false}, func(o *c11Op) { o.ok = api.Add("victim", "new", false) == nil })
+			case 2:
+				rec(c11Op{client: 1, kind: "remove", user: "victim"}, func(o *c11Op) { o.ok = api.Remove("victim") == nil })
+			case 3:
+				rec(c11Op{client: 1, kind: "setadmin", user: "victim", admin: !vadm}, func(o *c11Op) { o.ok = api.SetAdmin("victim", !vadm) == nil })
+			case 4:
+				rec(c11Op{client: 1, kind: "remove", user: "victim"}, func(o *c11Op) { o.ok = api.Remove("victim") == nil })
+				rec(c11Op{client: 1, kind: "add", user: "victim", pw: "old", admin: !vadm}, func(o *c11Op) { o.ok = api.Add("victim", "old", !vadm) == nil })
+				upd(1, "victim", "new")
+			}
+		}()
+		fin := make(chan struct{})
+		go func() { wg.Wait(); close(fin) }()
+		select {
+		case <-fin:
+		case <-time.After(20 * time.Second):
+			em.emit(vCase{Prop: "C11", Kind: "history", Class: "history/stalled", Nontrivial: true,
+				Violation: "requests of a directed upgrade-race history never returned", Human: map[string]interface{}{"variant": variant}})
+			return
+		}
+		// flush the update queue, then read sequentially
+		upd(2, "f0", "fpw")
+		upd(2, "f1", "fpw")
+		time.Sleep(30 * time.Millisecond)
+		for _, u := range all[:3] {
+			for _, pw := range []string{"old", "new", "fpw"} {
+				rec(c11Op{client: 1000, kind: "auth", user: u, pw: pw}, func(o *c11Op) {
+					ok, adm, _, _ := api.Authenticate(u, pw)
+					o.ok, o.resAdmin = ok, ok && adm
+				})
+			}
+		}
+		var xs []string
+		for _, o := range ops {
+			xs = append(xs, o.coq())
+		}
+		em.emit(vCase{Prop: "C11", Kind: "history", Class: fmt.Sprintf("history/upgrade-race-%d", variant), Nontrivial: true,
+			Coq:   fmt.Sprintf("LinHist %s %s", cList(init), cList(xs)),
+			Human: map[string]interface{}{"variant": variant, "ops": len(ops), "mode": "local"}})
+		vStats["ops"] += len(ops)
+		ms.cleanup()
+	}
 	em.emit(vCase{Prop: "C11", Kind: "stats", Class: "stats", Human: vStats})
 }
